@@ -37,6 +37,11 @@ type pointDrop struct{ v any }
 
 func (d pointDrop) ToLiquid() any { c04Cur.Point("ToLiquid"); return d.v }
 
+// ptrPointDrop is a Drop of pointer kind (shared by identity between renders), with the same scheduling point.
+type ptrPointDrop struct{ v any }
+
+func (d *ptrPointDrop) ToLiquid() any { c04Cur.Point("ToLiquid"); return d.v }
+
 func c04Engine() *liquid.Engine {
 	e := liquid.NewEngine()
 	e.RegisterFilter("y", func(v any) any { c04Cur.Point("filter"); return v })
@@ -123,8 +128,9 @@ var c04Base = []string{
 	"p{% raw %}{{ raw }}{% endraw %}{% comment %}zz{% endcomment %}q{{ d.k }}{{ d.l | join }}",
 	"{% for kv in m %}{{ kv[0] }}={{ kv[1] }};{% endfor %}{{ m.size }}{{ dl | join }}{{ dl[0] }}{% if dl[1] == 's' %}S{% endif %}",
 	"{% yb %}in{{ x }}{% endyb %}{% for i in l limit: 2 %}{% cycle 'g': '1', '2', '3' %}{% endfor %}",
-	`a{% include "` + c04FailName + `" %}b`, // the error raised inside the included file names the INCLUDING template's path and line
-	`R{% include "` + c04SelfName + `" %}`,  // 60 nested includes per render
+	`a{% include "` + c04FailName + `" %}b`,                             // the error raised inside the included file names the INCLUDING template's path and line
+	`R{% include "` + c04SelfName + `" %}`,                              // 60 nested includes per render
+	"{{ site }}|{{ site.page.title }}|{{ site.list }}|{{ m }}|{{ dl }}", // whole containers holding (pointer) Drops are printed
 	// thorough
 	"{% assign l = l | reverse %}{% for i in l %}{{ i }}{% endfor %}{% assign x = nil %}{{ x }}",
 	"{% for x in l %}{{ x }}{% endfor %}{{ x }}{{ forloop }}",
@@ -139,6 +145,7 @@ func c04Shared() map[string]any {
 		"x": "X", "l": []any{3, 1, 2, 1}, "lm": []any{map[string]any{"w": 2}, map[string]any{"w": 1}},
 		"m": map[string]any{"a": 1, "b": 2}, "d": pointDrop{map[string]any{"k": 1, "l": []any{2, 1}}},
 		"dl": []any{pointDrop{1}, pointDrop{"s"}}, "n": 0,
+		"site": map[string]any{"page": &ptrPointDrop{map[string]any{"title": "home"}}, "list": []any{&ptrPointDrop{7}}},
 	}
 }
 
@@ -155,7 +162,7 @@ type c04Scenario struct {
 }
 
 func c04Scenarios(tier string) []c04Scenario {
-	nT := 14
+	nT := 15
 	if tier == "thorough" {
 		nT = len(c04Base)
 	}
@@ -301,7 +308,7 @@ func c04Solo(nT int, op c04Op) string {
 
 func c04Families(tier string) []explore.Family {
 	scen := c04Scenarios(tier)
-	nT := 14
+	nT := 15
 	bound2, bound3 := 2, 1
 	maxExec := 200000
 	if tier == "thorough" {
